@@ -39,6 +39,11 @@ CLAIMED = {
    note="one grid point; composites on rho > 1e-6 per channel; non-local raw inputs related by the generators' nspin factors; MappedXC2 compared in SEP mode only (libxc's own spin consistency is trusted, not decidable for an uninterpreted functional).",
    technique="symbolic execution of both spin paths + z3 equality of the resulting terms",
    design="4/C07"),
+ "C08": dict(
+   text="Over the whole non-negative domain (rho in [0,1e12] incl. exact 0 and both sides of every cutoff, sigma, tau >= 0, regularisers at their real value 1e-16) the real formulas are executed symbolically and, for every division, root and logarithm that reaches an output (feature maps, normaliser list, s^2/alpha and derivatives, exponents, native baselines, the assembled eval_xc_cider), z3 decides that its argument cannot leave the domain on that path; products 0*(1/x) are kept so that a NaN hidden by a later zero is still seen; below the model's own rhocut comparison the ML energy and all derivatives are shown to be the constant 0.",
+   note="exact reals: IEEE overflow to inf, denormals and NaN propagation are not decided (no faithful SMT encoding of pow/exp/log); intermediate non-finite values overwritten by a mask before being returned are not outputs; V2Map restricted to x_j <= 2 x_i; C spline index clipping is decided under C18.",
+   technique="symbolic execution + one SMT domain query per partial operation under the path condition; replay on the unmodified code with isfinite",
+   design="4/C08"),
 }
 
 NOT_YET = {}
